@@ -12,7 +12,7 @@ for tsv in glob.glob('/verif/seeded/ROUND*_first_run.tsv'):
         p=l.rstrip('\n').split('\t')
         if len(p)>=2: first[p[0]]=p[1]
 for line in open('/var/tmp/seeded_final.out'):
-    m=re.match(r'(C\d\d-[A-D]) (CAUGHT by (.*)|MISSED|INAPPLICABLE.*)',line.strip())
+    m=re.match(r'(C\d\d-[A-E]) (CAUGHT by (.*)|MISSED|INAPPLICABLE.*)',line.strip())
     if not m: continue
     sid=m.group(1); p=f'/verif/seeded/{sid}/meta.json'
     d=json.load(open(p)) if os.path.exists(p) else {"id":sid,"property":sid[:3]}
@@ -23,8 +23,8 @@ for line in open('/var/tmp/seeded_final.out'):
         d['note']=d.get('note') or 'not reported by any rule of this property'
     else:
         d['note']='patch no longer applies to the current tree'
-    if sid[-2:] in ('-C','-D'):
-        d['round']=3 if sid.endswith('-C') else 4
+    if sid[-2:] in ('-C','-D','-E'):
+        d['round']={'-C':3,'-D':4,'-E':5}[sid[-2:]]
         if sid in first: d['first_run']=first[sid]
     json.dump(d,open(p,'w'),indent=1,ensure_ascii=False)
 PY
